@@ -15,9 +15,9 @@ def mc(name, files, module, quick, thorough=None, **kw):
 
 def mbt(name, files, module, harness, quick, thorough=None, qopts=None, topts=None):
     s = {"name": name, "kind": "mbt", "files": files, "module": module, "harness": harness,
-         "quick": dict(cfg=quick, walks=200, depth=8, **(qopts or {}))}
+         "quick": {**dict(cfg=quick, walks=200, depth=8), **(qopts or {})}}
     if thorough:
-        s["thorough"] = dict(cfg=thorough, walks=4000, depth=12, timeout=3000, hworkers=16, heap="10g", **(topts or {}))
+        s["thorough"] = {**dict(cfg=thorough, walks=4000, depth=12, timeout=3000, hworkers=16, heap="10g"), **(topts or {})}
     return s
 
 
@@ -43,6 +43,12 @@ VEST_TWO = mbt("vesting-two-denoms", VEST, "MBT_Vesting.tla", "vesting", "mc/MBT
 SIG = ["Signature.tla", "mc/MBT_Signature.tla"]
 SIG_MBT = mbt("signature", SIG, "MBT_Signature.tla", "signature", "mc/MBT_Signature_quick.cfg", "mc/MBT_Signature_thorough.cfg")
 
+CHAIN = ["DecArith.tla", "Minter.tla", "Distributor.tla", "Chain.tla", "mc/MBT_Chain.tla"]
+CHAIN_MBT = mbt("chain", CHAIN, "MBT_Chain.tla", "chain", "mc/MBT_Chain_quick.cfg", "mc/MBT_Chain_thorough.cfg", qopts={"budget": "100s", "walks": 50}, topts={"budget": "900s"})
+CHAIN_REPL = {"name": "chain-replicas", "kind": "replicas", "files": CHAIN, "module": "MBT_Chain.tla",
+              "quick": dict(cfg="mc/MBT_Chain_quick.cfg", histories=40, depth=14, repeat=3),
+              "thorough": dict(cfg="mc/MBT_Chain_thorough.cfg", histories=300, depth=20, repeat=10, timeout=3000, heap="10g", workers=16)}
+
 TRUST = ["TLC 1.8.0 and the TLA+ CommunityModules Json module", "the Go harness projection functions (harness/*)",
          "cosmos-sdk bank/auth keepers as the ground truth for balances and accounts"]
 
@@ -51,7 +57,17 @@ DIST_ASSUME = TRUST + ["fault injection wraps the bank keeper passed to cfedistr
 VEST_ASSUME = TRUST + ["messages are delivered as baseapp does (ValidateBasic, routed handler on a cache context, write-back on success) without ante handler / signatures",
                        "amounts <= 40 base units and vesting durations in {2,4} ticks keep the model's decimal arithmetic (P=100) identical to the 18-digit code"]
 
+CHAIN_ASSUME = TRUST + ["full-app BeginBlocker / EndBlocker are run on the deliver-state context (no Tendermint); messages are delivered as baseapp does without ante handler",
+                        "export / import goes through the module manager's ExportGenesis (build-tag hook VerifModuleManager), ModuleBasics.ValidateGenesis and InitChain of a fresh application"]
+
 PROPS = {
+    "C01": {"level": "model_checking", "stages": [CHAIN_MBT, VEST_POOLS, MINTER_SCHED], "assumptions": CHAIN_ASSUME},
+    "C10": {"level": "model_checking", "stages": [CHAIN_MBT, MINTER_UPD, DIST_CUR, DIST_UPD], "assumptions": CHAIN_ASSUME},
+    "C11": {"level": "model_checking", "stages": [CHAIN_REPL], "assumptions": CHAIN_ASSUME + ["Tendermint and IAVL are trusted; replicas are application instances fed the same ABCI calls"]},
+    "C12": {"level": "model_checking", "stages": [CHAIN_MBT, MINTER_SCHED, DIST_CUR, VEST_ACCTS, SIG_MBT], "assumptions": CHAIN_ASSUME},
+    "C13": {"level": "model_checking", "stages": [MINTER_UPD, DIST_UPD, VEST_ACCTS, CHAIN_MBT], "assumptions": CHAIN_ASSUME},
+    "C18": {"level": "model_checking", "stages": [MINTER_SCHED, DIST_CUR, VEST_POOLS], "assumptions": TRUST},
+    "C19": {"level": "model_checking", "stages": [MINTER_MC, MINTER_SCHED, MINTER_UPD], "assumptions": TRUST + ["inflation is compared with the model value within 2/P (the model truncates the same rational at 1/P twice)"]},
     "C05": {"level": "model_checking", "stages": [VEST_MC, VEST_POOLS], "assumptions": VEST_ASSUME},
     "C06": {"level": "model_checking", "stages": [VEST_MC, VEST_POOLS], "assumptions": VEST_ASSUME},
     "C08": {"level": "model_checking", "stages": [VEST_MC, VEST_POOLS, VEST_ACCTS], "assumptions": VEST_ASSUME},
